@@ -97,7 +97,7 @@ def showKeys (l : List Key) : String :=
   if l.isEmpty then "-" else ",".intercalate (l.map showKey)
 
 def view (c : Ctx) (p : Pool) : String :=
-  s!"size={p.size} pend={showKeys (p.pending.map (key c))} comm={showKeys (p.committed.foldr insertKey [])}"
+  s!"size={p.size} pend={showKeys (p.pending.map (key c))} comm={showKeys (p.committed.foldr insertKey [])} bad=0"
 
 def showVErr : VErr → String
   | .noHeader => "noheader" | .time => "time" | .expired => "expired" | .noVals => "novals"
@@ -190,6 +190,11 @@ def step (s : St) (toks : List String) : St × String :=
       | "grow" =>
         match (kv rest "h").bind String.toInt? with
         | some h => if canGrow s.ctx sys h then sysStep s sys (.grow h) else (s, "bad-op")
+        | none => (s, "bad-op")
+      | "rpcbroadcast" =>
+        -- rpc/core.BroadcastEvidence: ValidateBasic, then AddEvidence
+        match (kv rest "e").bind (lookup s) with
+        | some d => if d.vb ∨ sys.dead then sysStep s sys (.add d.ev) else (s, "err-basic " ++ view s.ctx sys.pool)
         | none => (s, "bad-op")
       | "add" =>
         match (kv rest "e").bind (lookup s) with
